@@ -266,7 +266,7 @@ class BezierPath(BooleanOperationsMixin, SampleMixin, object):
 
     def clone(self) -> "BezierPath":
         """Return a new path which is an exact copy of this one"""
-        p = BezierPath.fromSegments(self.asSegments())
+        p = BezierPath.fromSegments([s.clone() for s in self.asSegments()])
         p.closed = self.closed
         return p
 
